@@ -23,6 +23,18 @@ def flatten_and(e, out):
 def split_goal(goal, hyps_extra, skolems, depth=0) -> List[Tuple[list, z3.BoolRef]]:
     """-> list of (extra hypotheses, atomic goal piece)"""
     g = goal
+    if z3.is_eq(g) and g.arg(0).sort() == z3.BoolSort():
+        a, b = g.arg(0), g.arg(1)
+        if z3.is_true(a):
+            g = b
+        elif z3.is_true(b):
+            g = a
+        elif z3.is_false(a):
+            g = z3.Not(b)
+        elif z3.is_false(b):
+            g = z3.Not(a)
+    if z3.is_not(g) and z3.is_not(g.arg(0)):
+        g = g.arg(0).arg(0)
     if z3.is_and(g):
         out = []
         for c in g.children():
@@ -37,6 +49,11 @@ def split_goal(goal, hyps_extra, skolems, depth=0) -> List[Tuple[list, z3.BoolRe
         hs = []
         flatten_and(g.arg(0), hs)
         return split_goal(g.arg(1), hyps_extra + hs, skolems, depth + 1)
+    if z3.is_not(g) and z3.is_quantifier(g.arg(0)) and g.arg(0).is_exists():
+        q = g.arg(0)
+        vs = [_fresh(q.var_sort(i), q.var_name(i).split("!")[0]) for i in range(q.num_vars())]
+        skolems += vs
+        return split_goal(z3.Not(z3.substitute_vars(q.body(), *reversed(vs))), hyps_extra, skolems, depth + 1)
     if z3.is_not(g) and (z3.is_and(g.arg(0)) or (z3.is_quantifier(g.arg(0)) and g.arg(0).is_forall())):
         hs = []
         flatten_and(g.arg(0), hs)
@@ -254,7 +271,21 @@ def prepare(hyps: List[z3.BoolRef], goal: z3.BoolRef, extra_terms=()):
     for h in hyps:
         flatten_and(h, flat0)
     flat = []
+    flat1 = []
     for h in flat0:
+        if z3.is_not(h) and z3.is_quantifier(h.arg(0)):
+            q = h.arg(0)
+            vs = [z3.Const(f"nq!{q.get_id()}!{i}", q.var_sort(i)) for i in range(q.num_vars())]
+            body = z3.substitute_vars(q.body(), *reversed(vs))
+            if q.is_exists():
+                h = z3.ForAll(vs, z3.Not(body))      # not exists x. P  ==  forall x. not P
+            else:
+                _sk[0] += 1
+                h = z3.Not(body)                      # not forall x. P : skolemise (the nq! constants are fresh)
+            flatten_and(h, flat1)
+        else:
+            flat1.append(h)
+    for h in flat1:
         if z3.is_quantifier(h) or not _has_var_or_quant(h):
             flat.append(h)
         else:
